@@ -201,3 +201,16 @@ for a in ('Factorial', 'LambertW', 'ILog'):
 
 # ---- the cost contract of every evaluator (T24 ghost step counter): eval makes at most cost(expr) = |nodes| calls (C02)
 rule('*-ast', '*', '*', ['cost'], ['C02'])
+
+
+# ---- tokenizers: the lexical specification (gen/<stack>-lex.vinc).  Letter arms: names / aliases -> function tokens, only before
+# `(`; pi, e, rad, i.  Symbol arms: the operator / bracket characters of the evaluator.  Default arm: unknown characters rejected.
+for c in 'abcdefghijklmnopqrstuvwxyz':
+    rule(T, 'next', "Some('%s')" % c, ['post', 'assert'], ['C10', 'C13', 'C03'])
+for c in 'ip':
+    rule('complex-tok', 'next', "Some('%s')" % c, ['post', 'assert'], ['C08'])
+for c in 'per':
+    rule(T, 'next', "Some('%s')" % c, ['post', 'assert'], ['C12'])       # pi / e / rad: tokens the juxtaposition rule treats specially
+for c in "+-*/^%!<>&|":
+    rule(T, 'next', "Some('%s')" % ('[*]' if c == '*' else c), ['post', 'assert'], ['C04'])      # `*` is a glob character
+rule(T, 'next', "Some('@')", ['post', 'assert'], ['C14'])
